@@ -472,7 +472,7 @@ package larking
 // (assumed pure at call sites; its body is checked for value-preserving integer
 // conversions: text that does not fit the field's type must be rejected by the
 // typed decoder, never truncated afterwards - C03's "rejected rather than coerced")
-//@ func parseParam serves C01 C09 trusted pure partial conv
+//@ func parseParam serves C01 C09 trusted pure partial conv div index
 //@ func (tokens).String trusted pure
 
 //@ func (*path).search serves C01 C02 C09
@@ -720,7 +720,7 @@ package larking
 // request through one of the seven reviewed http.Error sites (and then never
 // runs the handler); a grpc-timeout is refused only when it is not legal; the
 // routing snapshot is loaded once.
-//@ func (*Mux).serveGRPC serves C15 C08 C09 C12 partial ghost count post
+//@ func (*Mux).serveGRPC serves C15 C08 C09 C12 partial ghost count post pre
 //@   requires m != nil && w != nil && r != nil
 //@   count hcalls `hd.handler(`
 //@   count refusals `http.Error(`
@@ -733,6 +733,9 @@ package larking
 //@   ensures [no-handler-after-refusal C15] refusals == 1 ==> hcalls == 0
 //@   ensures [one-snapshot C12] loads <= 1
 //@   assert at `msg := fmt.Sprintf("malformed grpc-timeout: %v", err)` [refuses-only-malformed-timeouts C15] !LegalTimeout(v)
+//@   count deadlines `context.WithTimeout(`
+//@   assert at "method := r.URL.Path" [deadline-context-is-carried-forward C15] len(v) > 0 ==> deadlines == 1 && ctx == tctx
+//@   assert atcall `context.WithCancel(` [one-deadline-iff-a-timeout-was-sent C15] (len(v) > 0 ==> deadlines == 1) && (len(v) == 0 ==> deadlines == 0)
 
 // Variables of a node are kept sorted by pattern text, so the order in which
 // search tries them is a function of the set of patterns, not of the
@@ -865,7 +868,7 @@ package larking
 //@   modifies F$state., M$
 //@   assert at "s.path.delRule(name)" [method-without-handlers-is-unregistered C11] !maphas(s.handlers, name)
 //@   ensures [dropped-conn-is-forgotten C11] ok ==> !maphas(s.conns, cc)
-//@ func (*Mux).DropConn serves C11 C12 partial ghost count post
+//@ func (*Mux).DropConn serves C11 C12 partial ghost count post nil pre
 //@   returns (ok)
 //@   requires m != nil
 //@   assert atcall `s.removeHandler(` [writer-mutates-its-own-copy C12] s != nil && isfresh(s)
@@ -904,12 +907,12 @@ package larking
 // ---------------------------------------------------------------------------
 // Interceptors and stats (C18): the nil-safe wrappers invoke exactly one of
 // interceptor / handler; payload events describe the payload.
-//@ func (*muxOptions).unary serves C18 partial count post
+//@ func (*muxOptions).unary serves C18 partial count post nil
 //@   requires o != nil
 //@   count viaInterceptor `ui(`
 //@   count direct `handler(`
 //@   ensures [exactly-once C18] viaInterceptor + direct == 1
-//@ func (*muxOptions).stream serves C18 partial count post
+//@ func (*muxOptions).stream serves C18 partial count post nil
 //@   requires o != nil
 //@   count viaInterceptor `si(`
 //@   count direct `handler(`
@@ -945,7 +948,7 @@ package larking
 //@   modifies F$webWriter.wroteHeader, F$webWriter.seenHeaders, G$wr.
 //@ func (*webWriter).Flush trusted pure
 // (newWebWriter wraps the response in a base64 encoder, an io.WriteCloser, exactly when typ is grpc-web-text.)
-//@ func (*webWriter).flushWithTrailer serves C06 partial count post
+//@ func (*webWriter).flushWithTrailer serves C06 partial count post nil
 //@   requires w != nil && (w.typ == "application/grpc-web-text" ==> impl(w.resp, "io.Closer"))
 //@   count closes `c.Close(`
 //@   witness verifWitnessWebText
@@ -1051,14 +1054,14 @@ package larking
 
 // Re-registering a connection whose descriptors are unchanged is a no-op: nothing
 // is removed on the path that reports "nothing to do".
-//@ func (*state).addConnHandler serves C11 partial count post
+//@ func (*state).addConnHandler serves C11 partial count post pre
 //@   requires s != nil
 //@   count removes `s.removeHandler(`
 //@   ensures [unchanged-conn-is-a-no-op C11] at "return nil" #1 removes == 0
 
 // Proxied streaming methods: the interceptor info carries the method's own
 // name and streaming flags (C18).
-//@ func createConnHandler serves C18 partial ghost
+//@ func createConnHandler serves C18 partial ghost nil
 //@   requires md != nil && sd != nil
 //@   assert at "fn := func(_ interface{}, stream grpc.ServerStream) error {" [proxied-stream-info C18] info != nil && info.IsClientStream == isClientStream && info.IsServerStream == isServerStream && info.FullMethod == method
 //@   assert at "fn := func(ctx context.Context, args interface{}) (interface{}, error) {" [proxied-unary-info C18] info#2 != nil && info#2.FullMethod == method
@@ -1117,7 +1120,7 @@ package larking
 // http.go, per message: the body / response_body selectors stored in the method
 // at registration are walkable (AllSingular, proved in addRule), so applying them
 // never panics; a stats handler sees one payload event per message.
-//@ func (*streamHTTP).decodeRequestArgs serves C09 C18 C16 partial pre[protoreflect inv.init inv.keep post
+//@ func (*streamHTTP).decodeRequestArgs serves C09 C18 C16 partial pre[protoreflect inv.init inv.keep post index make slice
 //@   returns (count, err)
 //@   requires s != nil && s.method != nil && AllSingular(s.method.body) && args != nil
 //@   count payloadEvents `stats.HandleRPC(`
@@ -1125,7 +1128,7 @@ package larking
 //@   ensures [one-in-payload-event-per-message C18] err == nil && s.opts.statsHandler != nil ==> payloadEvents == 1
 //@   ensures [no-event-without-message C18] err != nil ==> payloadEvents == 0
 
-//@ func (*streamHTTP).SendMsg serves C04 C09 C18 C16 partial pre[protoreflect inv.init inv.keep post
+//@ func (*streamHTTP).SendMsg serves C04 C09 C18 C16 partial pre[protoreflect inv.init inv.keep post assert index slice
 //@   returns (err)
 //@   requires s != nil && s.method != nil && AllSingular(s.method.resp) && impl(m, "proto.Message")
 //@   count payloadEvents `stats.HandleRPC(`
@@ -1133,17 +1136,17 @@ package larking
 //@   ensures [one-out-payload-event-per-message C18] err == nil && s.opts.statsHandler != nil ==> payloadEvents == 1
 //@   ensures [no-event-without-message C18] err != nil ==> payloadEvents == 0
 
-//@ func (*streamWS).SendMsg serves C09 C16 partial pre[protoreflect inv.init inv.keep
+//@ func (*streamWS).SendMsg serves C09 C16 partial pre[protoreflect inv.init inv.keep assert index nil
 //@   requires s != nil && s.method != nil && AllSingular(s.method.resp) && impl(v, "proto.Message")
 //@   loop 1 invariant -1 <= rangeindex && rangeindex < len(s.method.resp) && AllSingular(s.method.resp) && cur != nil
-//@ func (*streamWS).RecvMsg serves C09 C16 partial pre[protoreflect inv.init inv.keep
+//@ func (*streamWS).RecvMsg serves C09 C16 partial pre[protoreflect inv.init inv.keep assert index nil
 //@   requires s != nil && s.method != nil && AllSingular(s.method.body) && impl(m, "proto.Message")
 //@   loop 1 invariant -1 <= rangeindex && rangeindex < len(s.method.body) && AllSingular(s.method.body) && cur != nil
-//@ func AsHTTPBodyWriter serves C09 C16 partial pre[protoreflect inv.init inv.keep
+//@ func AsHTTPBodyWriter serves C09 C16 partial pre[protoreflect inv.init inv.keep index
 //@   requires stream != nil && msg != nil
 //@   assume at "for _, fd := range s.method.resp {" s != nil && s.method != nil && AllSingular(s.method.resp) && cur != nil
 //@   loop 1 invariant -1 <= rangeindex && rangeindex < len(s.method.resp) && AllSingular(s.method.resp) && cur != nil
-//@ func AsHTTPBodyReader serves C09 C16 partial pre[protoreflect inv.init inv.keep
+//@ func AsHTTPBodyReader serves C09 C16 partial pre[protoreflect inv.init inv.keep index
 //@   requires stream != nil && msg != nil
 //@   assume at "for _, fd := range s.method.body {" s != nil && s.method != nil && AllSingular(s.method.body) && cur != nil
 //@   loop 1 invariant -1 <= rangeindex && rangeindex < len(s.method.body) && AllSingular(s.method.body) && cur != nil
@@ -1172,15 +1175,15 @@ package larking
 //@   ensures [unpadded-accepted C14] B64OK("raw", v) ==> err == nil
 //@   ensures [invalid-rejected C14] !B64OK("std", v) && !B64OK("raw", v) ==> err != nil
 
-//@ func setOutgoingHeader serves C14 partial ghost
+//@ func setOutgoingHeader serves C14 partial ghost make
 //@   assert at "header[textproto.CanonicalMIMEHeaderKey(k)] = vs" [reserved-keys-not-forgeable C14] !ProtocolKey(k)
-//@ func newIncomingContext serves C14 partial ghost
+//@ func newIncomingContext serves C14 partial ghost make nil
 //@   assert at "md[k] = vs" [protocol-keys-not-injected C14] !ProtocolKey(k)
 
 // The path and query parameters are applied after the body has been decoded
 // (so a body value for a path-bound field cannot survive), on the first message
 // only, and exactly once (C07).
-//@ func (*streamHTTP).RecvMsg serves C07 partial ghost post
+//@ func (*streamHTTP).RecvMsg serves C07 partial ghost post assert nil
 //@   returns (err)
 //@   requires s != nil && s.method != nil && impl(m, "proto.Message")
 //@   ghost hb = s.method.hasBody && s.hasBody
